@@ -14,7 +14,7 @@ from vlib import onto_closure as OC
 ID = "C15"
 LEVEL = "exploration"
 EXHAUSTIVE = True
-RULE = ("random populations (2-7 instances of Person/Employee/Manager, Org/Dept, Chief roles) and fact sets of 1-8 "
+RULE = ("random populations (2-7 instances of Person/Employee/Manager, Org/Dept, Chief roles; an eighth of the cases use value-equal but distinct VOrg / VPerson twins) and fact sets of 1-8 "
         "facts over {works_for, head_of, member_of, members, sub_org_of (transitive), wholly_owned_by (sub-property of "
         "sub_org_of), part_of/has_part (transitive + inverse)} including chains, diamonds and cycles, asserted in a random order through a random write form "
         "(assignment, container assignment while empty, append, extend, insert, add, update); a bank of fixed fact sets "
@@ -95,7 +95,25 @@ def gen_facts(rng, pop, n):
     return facts
 
 
+def gen_twins(rng):
+    """value-equal but distinct individuals (VOrg("t0") twice): the graph is keyed by identity, so must the fields be"""
+    # (the persons are distinguishable: they are held in SETS, which cannot hold two equal elements by Python's own rules)
+    pop = [[f"p{i}", "VPerson", f"q{i}"] for i in range(rng.randint(1, 3))]
+    pop += [[f"o{i}", "VOrg", f"t{i % 2}"] for i in range(rng.randint(2, 4))]
+    facts = []
+    for _ in range(rng.randint(1, 7)):
+        if rng.random() < 0.5:
+            s, f, o, form = rng.choice(names_of(pop, "person")), "member_of", rng.choice(names_of(pop, "org")), rng.choice(["append", "extend", "insert"])
+        else:
+            s, f, o, form = rng.choice(names_of(pop, "org")), "members", rng.choice(names_of(pop, "person")), rng.choice(["add", "update"])
+        if (s, f, o) not in [tuple(x[:3]) for x in facts]:
+            facts.append([s, f, o, form])
+    return {"pop": pop, "facts": facts, "twins": True}
+
+
 def gen(rng, tier, ctx):
+    if rng.random() < 0.12:
+        return gen_twins(rng)
     pop = gen_population(rng)
     facts = gen_facts(rng, pop, rng.randint(1, 8))
     rng.shuffle(facts)
@@ -191,6 +209,9 @@ def run(spec, ctx):
         if cls == "Chief":
             named[name] = om.Chief(named[tk])
             taker[name] = tk
+        elif cls in ("VOrg", "VPerson"):
+            named[name] = om.ALL_CLASSES[cls](tk)          # the display name repeats: value-equal twins
+            C["twin_instances"] += 1
         else:
             named[name] = om.ALL_CLASSES[cls](name)
     forms_used = []
